@@ -362,7 +362,12 @@ func (fs *FS) Rename(oldname, newname string) error {
 		err := fs.Rename(path.Join(oldname, name), path.Join(newname, name))
 		if err != nil {
 			// TODO don't leave destination in corrupted state (missing file records for dir names)
-			return err
+			var childErr *hackpadfs.LinkError
+			if errors.As(err, &childErr) {
+				// name the directories the caller asked to move, not the child that failed
+				err = childErr.Err
+			}
+			return linkErr("rename", oldname, newname, err)
 		}
 	}
 	return linkErr("rename", oldname, newname, fs.setFile(oldname, nil))
